@@ -16,11 +16,19 @@ use std::sync::Arc;
 // what an 8 MiB main thread (2 MiB test threads) can take.
 const MAX_RECURSION_DEPTH: usize = 100;
 
+// Operator, call, index and member chains are parsed in loops, so `a + a + ... + a` never
+// recurses in the parser, but every link nests the syntax tree one level deeper and everything
+// after the parser (type inference, the optimiser, code generation, even dropping the tree)
+// recurses over it. Type inference gives up beyond a depth of 200, so a chain this long was
+// never accepted anyway; the bound only has to keep the tree shallow enough to walk and to drop.
+const MAX_CHAIN_LINKS: usize = 1000;
+
 pub struct Parser {
     tokens: Vec<Token>,
     current: usize,
     pub(crate) source: Arc<Source>,
     recursion_depth: usize,
+    chain_links: usize, // links of the chains that enclose the current position
 }
 
 impl Parser {
@@ -30,6 +38,7 @@ impl Parser {
             current: 0,
             source,
             recursion_depth: 0,
+            chain_links: 0,
         }
     }
 
@@ -56,6 +65,17 @@ impl Parser {
         if self.recursion_depth > MAX_RECURSION_DEPTH {
             return Err(self.error(CompileErrorKind::RecursionDepthExceeded {
                 max: MAX_RECURSION_DEPTH,
+            }));
+        }
+        Ok(())
+    }
+
+    /// One more link (`+ b`, `.m`, `[i]`, `(args)`) of the chain being parsed.
+    pub(crate) fn chain_link(&mut self) -> Result<()> {
+        self.chain_links += 1;
+        if self.chain_links > MAX_CHAIN_LINKS {
+            return Err(self.error(CompileErrorKind::RecursionDepthExceeded {
+                max: MAX_CHAIN_LINKS,
             }));
         }
         Ok(())
